@@ -240,6 +240,9 @@ def _catviol(key, case, site, msg, feats=None):
     return core.violation(key, site, msg, case, dict(feats or {}, family=case[1]), "# find_domain vs actual: %s" % (case,))
 
 
+_KEEP_OPS = []
+
+
 def check_cat(case, seed):
     import numpy as np
     from funsor import ops
@@ -291,7 +294,8 @@ def check_cat(case, seed):
                 return core.skip(key, "numpy-rejects-index")
             if 0 in actual.shape:
                 return core.skip(key, "empty-result")
-            o = ops.getslice.__class__(index if len(index) != 1 else index[0]) if False else type(ops.getslice)(index)
+            o = type(ops.getslice)(index)
+            _KEEP_OPS.append(o)  # parametrised ops are interned weakly: keep them alive so that key collisions surface
             dom = find_domain(o, _dom(shape))
             actual2 = np.asarray(o(x))
             if actual2.shape != actual.shape:
